@@ -196,7 +196,7 @@ func (c *Ctx) ruleIndexSrc(builders ...string) {
 							okArgs, why = false, "unexpected number of arguments"
 						}
 						for i := 0; okArgs && i < len(as.args); i++ {
-							d := P.Desc(a[i+2])
+							d := c.liveDesc(a[i+2])
 							f := as.args[i]
 							annElem := "elem(field("
 							var wantSuffix string
@@ -466,4 +466,58 @@ func hasTypeParamArg(fn *ssa.Function) bool {
 		}
 	}
 	return false
+}
+
+// liveDesc: the descriptor of v in the current calling context. A value selected by a flag that is a constant in
+// this context (a sibling builder merged into one helper with a bool parameter: `x := a; if flag { x = b }`) is
+// the alternative that is live here.
+func (c *Ctx) liveDesc(v ssa.Value) string {
+	P := c.P
+	d := P.Desc(v)
+	if _, isPhi := v.(*ssa.Phi); !isPhi {
+		return d
+	}
+	constFalse := func(l Lit) bool {
+		switch l.Kind {
+		case "cond":
+			if l.Val == nil {
+				return false
+			}
+			rs := P.Resolve(l.Val)
+			if len(rs) != 1 {
+				return false
+			}
+			if cv, isC := constBool(rs[0]); isC {
+				return cv != l.Pos
+			}
+		case "eq":
+			rx, ry := P.Resolve(l.X), P.Resolve(l.Y)
+			if len(rx) == 1 && len(ry) == 1 {
+				cx, okx := rx[0].(*ssa.Const)
+				cy, oky := ry[0].(*ssa.Const)
+				if okx && oky && cx.Value != nil && cy.Value != nil {
+					return (cx.Value.ExactString() == cy.Value.ExactString()) != l.Pos
+				}
+			}
+		}
+		return false
+	}
+	live := map[string]bool{}
+	for _, vc := range P.ValueCases(v, 0) {
+		dead := false
+		for _, g := range vc.Guards {
+			if constFalse(g) {
+				dead = true
+			}
+		}
+		if !dead {
+			live[vc.Desc] = true
+		}
+	}
+	if len(live) == 1 {
+		for k := range live {
+			return k
+		}
+	}
+	return d
 }
